@@ -47,11 +47,14 @@ theorem turn_setOut (c : Consts) (env : Env) (o) (σ) : turn c (env.setOut o) σ
   unfold turn
   simp only [readClock_setOut, doWait_setOut, sweep_setOut, slowPhase_setOut]
 
+@[simp] theorem writeOne_setOut_σ (env : Env) (o) (σ i p) : (writeOne (env.setOut o) σ i p).σ = (writeOne env σ i p).σ := rfl
+@[simp] theorem writeOne_setOut_ev (env : Env) (o) (σ i p) : (writeOne (env.setOut o) σ i p).ev = (writeOne env σ i p).ev := rfl
+
 theorem writeParams_setOut (env : Env) (o) (i : Nat) (ps : List Nat) : ∀ σ evs,
     writeParams (env.setOut o) i ps σ evs = writeParams env i ps σ evs := by
   induction ps with
   | nil => intro σ evs; rfl
-  | cons p ps ih => intro σ evs; simp only [writeParams, call_setOut_σ, call_setOut_ev, ih]
+  | cons p ps ih => intro σ evs; simp only [writeParams, writeOne_setOut_σ, writeOne_setOut_ev, ih]
 
 theorem writeInit_setOut (env : Env) (o) (σ : PollState) (i : Nat) (evs : List Event) :
     writeInit (env.setOut o) σ i evs = writeInit env σ i evs := writeParams_setOut env o i _ σ evs
@@ -85,62 +88,160 @@ theorem applyExts_pending (es : List Ext) : ∀ σ, (applyExts es σ).pending = 
 /-- the key of an event: which function of which module -/
 abbrev evKey (e : Event) : Nat × Fn := (e.m, e.f)
 
-theorem writeParams_calls (env : Env) (i : Nat) (ps : List Nat) : ∀ σ evs,
-    (writeParams env i ps σ evs).evs.map evKey = evs.map evKey ++ ps.map (fun p => (i, Fn.write p)) := by
-  induction ps with
-  | nil => intro σ evs; simp [writeParams]
-  | cons p ps ih => intro σ evs; simp only [writeParams, ih]; simp [call]
+theorem writeOne_pending (env : Env) (σ : PollState) (i p : Nat) :
+    (writeOne env σ i p).σ.pending = takeOut (popPending σ.pending i p) i (env.takes σ.nCall) := by
+  simp only [writeOne, call_pending]
 
-theorem foldl_erase_self : ∀ l : List Nat, l.foldl List.erase l = []
-  | [] => rfl
-  | p :: ps => by simp only [List.foldl_cons, List.erase_cons_head]; exact foldl_erase_self ps
+theorem writeOne_key (env : Env) (σ : PollState) (i p : Nat) : evKey (writeOne env σ i p).ev = (i, Fn.write p) := rfl
+
+/-- one write: the entry is gone, nothing is added; the other modules' start values are untouched -/
+theorem writeOne_pending_mem (env : Env) (σ : PollState) (i p : Nat) :
+    (∀ q ∈ (writeOne env σ i p).σ.pending i, q ∈ σ.pending i ∧ q ≠ p) ∧
+    ∀ j, j ≠ i → (writeOne env σ i p).σ.pending j = σ.pending j := by
+  rw [writeOne_pending]
+  refine ⟨?_, ?_⟩
+  · intro q hq
+    simp only [takeOut, popPending, if_true, List.mem_filter] at hq
+    exact ⟨hq.1.1, by simpa using hq.1.2⟩
+  · intro j hj; simp [takeOut, popPending, hj]
+
+/-- when the write function takes nothing else out of `writeDict`, exactly the written entry is gone -/
+theorem writeOne_pending_exact (env : Env) (σ : PollState) (i p : Nat) (ht : env.takes σ.nCall = []) (q : Nat) :
+    q ∈ (writeOne env σ i p).σ.pending i ↔ q ∈ σ.pending i ∧ q ≠ p := by
+  rw [writeOne_pending, ht]
+  simp [takeOut, popPending]
 
 theorem writeParams_pending (env : Env) (i : Nat) (ps : List Nat) : ∀ σ evs,
-    (writeParams env i ps σ evs).σ.pending i = ps.foldl List.erase (σ.pending i) ∧
+    (∀ q ∈ (writeParams env i ps σ evs).σ.pending i, q ∈ σ.pending i ∧ q ∉ ps) ∧
     ∀ j, j ≠ i → (writeParams env i ps σ evs).σ.pending j = σ.pending j := by
   induction ps with
-  | nil => intro σ evs; exact ⟨rfl, fun _ _ => rfl⟩
+  | nil => intro σ evs; exact ⟨fun q hq => ⟨hq, List.not_mem_nil⟩, fun _ _ => rfl⟩
   | cons p ps ih =>
     intro σ evs
-    simp only [writeParams, List.foldl_cons]
-    obtain ⟨a, b⟩ := ih (call env { σ with pending := popPending σ.pending i p } i (.write p)).σ
-      (evs ++ [(call env { σ with pending := popPending σ.pending i p } i (.write p)).ev])
-    refine ⟨?_, ?_⟩
-    · rw [a, call_pending]; simp [popPending]
-    · intro j hj; rw [b j hj, call_pending]; simp [popPending, hj]
+    simp only [writeParams]
+    split
+    · obtain ⟨a, b⟩ := ih (writeOne env σ i p).σ (evs ++ [(writeOne env σ i p).ev])
+      obtain ⟨c, d⟩ := writeOne_pending_mem env σ i p
+      refine ⟨fun q hq => ?_, fun j hj => by rw [b j hj, d j hj]⟩
+      obtain ⟨h1, h2⟩ := a q hq
+      obtain ⟨h3, h4⟩ := c q h1
+      exact ⟨h3, by simp [h4, h2]⟩
+    · rename_i hp
+      obtain ⟨a, b⟩ := ih σ evs
+      refine ⟨fun q hq => ?_, b⟩
+      obtain ⟨h1, h2⟩ := a q hq
+      exact ⟨h1, by intro hm; rcases List.mem_cons.1 hm with h | h; exact hp (h ▸ h1); exact h2 h⟩
 
 /-- after `writeInitParams` nothing is left to write for that module; the other modules' start values are untouched -/
 theorem writeInit_pending (env : Env) (σ : PollState) (i : Nat) (evs : List Event) :
     (writeInit env σ i evs).σ.pending i = [] ∧ ∀ j, j ≠ i → (writeInit env σ i evs).σ.pending j = σ.pending j := by
   obtain ⟨a, b⟩ := writeParams_pending env i (σ.pending i) σ evs
-  exact ⟨by unfold writeInit; rw [a]; exact foldl_erase_self _, b⟩
+  refine ⟨List.eq_nil_iff_forall_not_mem.2 (fun q hq => ?_), b⟩
+  obtain ⟨h1, h2⟩ := a q hq
+  exact h2 h1
+
+/-- what `writeInitParams` calls, for every environment: write functions of names of the snapshot, in its order, each
+name at most once per occurrence -/
+theorem writeParams_calls (env : Env) (i : Nat) (ps : List Nat) : ∀ σ evs,
+    ∃ l, (writeParams env i ps σ evs).evs.map evKey = evs.map evKey ++ l ∧
+      List.Sublist l (ps.map (fun p => (i, Fn.write p))) := by
+  induction ps with
+  | nil => intro σ evs; exact ⟨[], by simp [writeParams], List.Sublist.refl _⟩
+  | cons p ps ih =>
+    intro σ evs
+    simp only [writeParams]
+    split
+    · obtain ⟨l, h1, h2⟩ := ih (writeOne env σ i p).σ (evs ++ [(writeOne env σ i p).ev])
+      refine ⟨(i, Fn.write p) :: l, ?_, by simpa using h2.cons_cons (i, Fn.write p)⟩
+      rw [h1]; simp [writeOne_key]
+    · obtain ⟨l, h1, h2⟩ := ih σ evs
+      exact ⟨l, h1, by simpa using h2.cons (i, Fn.write p)⟩
 
 theorem writeInit_calls (env : Env) (σ : PollState) (i : Nat) (evs : List Event) :
-    (writeInit env σ i evs).evs.map evKey = evs.map evKey ++ (σ.pending i).map (fun p => (i, Fn.write p)) :=
+    ∃ l, (writeInit env σ i evs).evs.map evKey = evs.map evKey ++ l ∧
+      List.Sublist l ((σ.pending i).map (fun p => (i, Fn.write p))) :=
   writeParams_calls env i _ σ evs
 
-theorem flatMap_congr' {α β : Type} (f g : α → List β) : ∀ l : List α, (∀ a ∈ l, f a = g a) → l.flatMap f = l.flatMap g
-  | [], _ => rfl
-  | a :: l, h => by
-    simp only [List.flatMap_cons]
-    rw [h a List.mem_cons_self, flatMap_congr' f g l (fun b hb => h b (List.mem_cons_of_mem _ hb))]
+/-- no write function takes further entries out of `writeDict` (no common write handlers) -/
+def NoTakes (env : Env) : Prop := ∀ k, env.takes k = []
 
-/-- the late writes: for every module of the list, in list order, the write functions of the start values still to be
-written, in the order of its `writeDict` — nothing else -/
-theorem lateAll_calls (env : Env) (is : List Nat) (hnd : is.Nodup) : ∀ σ evs,
-    (lateAll env is σ evs).evs.map evKey =
-      evs.map evKey ++ is.flatMap (fun i => (σ.pending i).map (fun p => (i, Fn.write p))) := by
+/-- … then every name of the snapshot that is in `writeDict` is written, in order -/
+theorem writeParams_calls_exact (env : Env) (hn : NoTakes env) (i : Nat) (ps : List Nat) (hnd : ps.Nodup) : ∀ σ evs,
+    (∀ p ∈ ps, p ∈ σ.pending i) →
+    (writeParams env i ps σ evs).evs.map evKey = evs.map evKey ++ ps.map (fun p => (i, Fn.write p)) := by
+  induction ps with
+  | nil => intro σ evs _; simp [writeParams]
+  | cons p ps ih =>
+    intro σ evs hall
+    obtain ⟨hp, hnd'⟩ := List.nodup_cons.1 hnd
+    simp only [writeParams, if_pos (hall p List.mem_cons_self)]
+    rw [ih hnd' _ _ (fun q hq => (writeOne_pending_exact env σ i p (hn _) q).2
+      ⟨hall q (List.mem_cons_of_mem _ hq), fun h => hp (h ▸ hq)⟩)]
+    simp [writeOne_key]
+
+theorem writeInit_calls_exact (env : Env) (hn : NoTakes env) (σ : PollState) (i : Nat) (hnd : (σ.pending i).Nodup)
+    (evs : List Event) :
+    (writeInit env σ i evs).evs.map evKey = evs.map evKey ++ (σ.pending i).map (fun p => (i, Fn.write p)) :=
+  writeParams_calls_exact env hn i _ hnd σ evs (fun _ h => h)
+
+/-- events of `writeInitParams` seen one by one -/
+theorem writeParams_events (env : Env) (i : Nat) (ps : List Nat) : ∀ σ evs,
+    ∀ e ∈ (writeParams env i ps σ evs).evs,
+      e ∈ evs ∨ (e.m = i ∧ ∃ p, e.f = Fn.write p ∧ p ∈ ps ∧ p ∈ σ.pending i) := by
+  induction ps with
+  | nil => intro σ evs e he; exact Or.inl he
+  | cons p ps ih =>
+    intro σ evs e he
+    simp only [writeParams] at he
+    split at he
+    · rename_i hp
+      rcases ih _ _ e he with h | ⟨hm, q, hf, hq, hq'⟩
+      · rcases List.mem_append.1 h with h | h
+        · exact Or.inl h
+        · simp only [List.mem_singleton] at h; subst h
+          exact Or.inr ⟨rfl, p, rfl, List.mem_cons_self, hp⟩
+      · exact Or.inr ⟨hm, q, hf, List.mem_cons_of_mem _ hq, ((writeOne_pending_mem env σ i p).1 q hq').1⟩
+    · rcases ih _ _ e he with h | ⟨hm, q, hf, hq, hq'⟩
+      · exact Or.inl h
+      · exact Or.inr ⟨hm, q, hf, List.mem_cons_of_mem _ hq, hq'⟩
+
+theorem writeInit_events (env : Env) (σ : PollState) (i : Nat) (evs : List Event) :
+    ∀ e ∈ (writeInit env σ i evs).evs, e ∈ evs ∨ (e.m = i ∧ ∃ p, e.f = Fn.write p ∧ p ∈ σ.pending i) := by
+  intro e he
+  rcases writeParams_events env i _ σ evs e he with h | ⟨hm, p, hf, _, hp⟩
+  · exact Or.inl h
+  · exact Or.inr ⟨hm, p, hf, hp⟩
+
+/-- `writeInitParams` only ever takes entries out of `writeDict` -/
+theorem writeInit_pending_sub (env : Env) (σ : PollState) (i : Nat) (evs : List Event) (j q : Nat)
+    (h : q ∈ (writeInit env σ i evs).σ.pending j) : q ∈ σ.pending j := by
+  by_cases hj : j = i
+  · subst hj; rw [(writeInit_pending env σ j evs).1] at h; cases h
+  · rw [(writeInit_pending env σ i evs).2 j hj] at h; exact h
+
+/-- the late writes: only write functions of start values that were still to be written, of modules of the list; and
+afterwards nothing is left to write for any module of the list -/
+theorem lateAll_events (env : Env) (is : List Nat) : ∀ σ evs,
+    (∀ e ∈ (lateAll env is σ evs).evs, e ∈ evs ∨ (e.m ∈ is ∧ ∃ p, e.f = Fn.write p ∧ p ∈ σ.pending e.m)) ∧
+    (∀ j q, q ∈ (lateAll env is σ evs).σ.pending j → q ∈ σ.pending j) ∧
+    ∀ j ∈ is, (lateAll env is σ evs).σ.pending j = [] := by
   induction is with
-  | nil => intro σ evs; simp [lateAll]
+  | nil => intro σ evs; exact ⟨fun e he => Or.inl he, fun _ _ h => h, fun j hj => by cases hj⟩
   | cons i is ih =>
     intro σ evs
-    obtain ⟨hi, hnd'⟩ := List.nodup_cons.1 hnd
-    simp only [lateAll, List.flatMap_cons]
-    rw [ih hnd', writeInit_calls, List.append_assoc]
-    congr 2
-    apply flatMap_congr'
-    intro j hj
-    rw [(writeInit_pending env σ i evs).2 j (fun h => hi (h ▸ hj))]
+    simp only [lateAll]
+    obtain ⟨a, b, c⟩ := ih (writeInit env σ i evs).σ (writeInit env σ i evs).evs
+    refine ⟨fun e he => ?_, fun j q h => writeInit_pending_sub env σ i evs j q (b j q h), fun j hj => ?_⟩
+    · rcases a e he with h | ⟨hm, p, hf, hp⟩
+      · rcases writeInit_events env σ i evs e h with h | ⟨hm, p, hf, hp⟩
+        · exact Or.inl h
+        · exact Or.inr ⟨by rw [hm]; exact List.mem_cons_self, p, hf, by rw [hm]; exact hp⟩
+      · exact Or.inr ⟨List.mem_cons_of_mem _ hm, p, hf, writeInit_pending_sub env σ i evs _ p hp⟩
+    · rcases List.mem_cons.1 hj with h | h
+      · subst h
+        exact List.eq_nil_iff_forall_not_mem.2 (fun q hq => by
+          have := b j q hq; rw [(writeInit_pending env σ j evs).1] at this; cases this)
+      · exact c j h
 
 theorem run_setOut (c : Consts) (env : Env) (o) (n : Nat) : ∀ σ evs, run c (env.setOut o) n σ evs = run c env n σ evs := by
   induction n with
@@ -519,6 +620,14 @@ namespace Frappy.Poller
 
 /-! ## the start-up round -/
 
+theorem writeOne_statics (env : Env) (σ : PollState) (i p : Nat) : statics (writeOne env σ i p).σ = statics σ := by
+  show statics (call env { σ with pending := popPending σ.pending i p } i (.write p)).σ = statics σ
+  simp only [call, runCall_statics, noteRead_statics]; rfl
+
+theorem writeOne_toPoll (env : Env) (σ : PollState) (i p : Nat) : (writeOne env σ i p).σ.toPoll = σ.toPoll := by
+  show (call env { σ with pending := popPending σ.pending i p } i (.write p)).σ.toPoll = σ.toPoll
+  simp only [call, runCall_toPoll, noteRead_toPoll]
+
 theorem writeParams_ok (env : Env) (st : Statics) (i : Nat) (hi : i < st.length) (ps : List Nat) : ∀ σ evs,
     statics σ = st → (∀ ev ∈ evs, ValidEvent st ev) →
     statics (writeParams env i ps σ evs).σ = st ∧ (writeParams env i ps σ evs).σ.toPoll = σ.toPoll ∧
@@ -527,18 +636,17 @@ theorem writeParams_ok (env : Env) (st : Statics) (i : Nat) (hi : i < st.length)
   | nil => intro σ evs hs he; exact ⟨hs, rfl, he⟩
   | cons p ps ih =>
     intro σ evs hs he
-    have hev : ∀ ev ∈ evs ++ [(call env { σ with pending := popPending σ.pending i p } i (.write p)).ev],
-        ValidEvent st ev := by
-      intro ev h
-      rcases List.mem_append.1 h with h | h
-      · exact he ev h
-      · simp only [List.mem_singleton] at h; subst h
-        exact hi
-    have hs' : statics (call env { σ with pending := popPending σ.pending i p } i (.write p)).σ = st := by
-      simp only [call, runCall_statics, noteRead_statics]; exact hs
     simp only [writeParams]
-    obtain ⟨a, b, c⟩ := ih _ _ hs' hev
-    exact ⟨a, by rw [b]; simp [call], c⟩
+    split
+    · have hev : ∀ ev ∈ evs ++ [(writeOne env σ i p).ev], ValidEvent st ev := by
+        intro ev h
+        rcases List.mem_append.1 h with h | h
+        · exact he ev h
+        · simp only [List.mem_singleton] at h; subst h
+          exact hi
+      obtain ⟨a, b, c⟩ := ih _ _ ((writeOne_statics env σ i p).trans hs) hev
+      exact ⟨a, by rw [b, writeOne_toPoll], c⟩
+    · exact ih _ _ hs he
 
 theorem writeInit_ok (env : Env) (st : Statics) (i : Nat) (hi : i < st.length) (σ : PollState) (evs : List Event)
     (hs : statics σ = st) (he : ∀ ev ∈ evs, ValidEvent st ev) :
@@ -1212,20 +1320,22 @@ theorem startsOf_snoc_other (evs : List Event) (ev : Event) (i : Nat) (h : ev.f 
     simp [startsOf, h]
   rw [this, List.append_nil]
 
+theorem writeOne_mods (env : Env) (hq : Quiet env) (σ : PollState) (i p : Nat) : (writeOne env σ i p).σ.mods = σ.mods :=
+  runCall_mods env hq (noteRead { σ with pending := popPending σ.pending i p } i (.write p))
+
 theorem writeParams_quiet (env : Env) (hq : Quiet env) (i j : Nat) (ps : List Nat) : ∀ σ evs,
     (writeParams env j ps σ evs).σ.mods = σ.mods ∧ startsOf (writeParams env j ps σ evs).evs i = startsOf evs i := by
   induction ps with
   | nil => intro σ evs; exact ⟨rfl, rfl⟩
   | cons p ps ih =>
     intro σ evs
-    have hmods : (call env { σ with pending := popPending σ.pending j p } j (.write p)).σ.mods = σ.mods :=
-      runCall_mods env hq (noteRead { σ with pending := popPending σ.pending j p } j (.write p))
-    have hst : startsOf (evs ++ [(call env { σ with pending := popPending σ.pending j p } j (.write p)).ev]) i =
-        startsOf evs i := startsOf_snoc_other evs _ i (by simp [call])
     simp only [writeParams]
-    obtain ⟨a, b⟩ := ih (call env { σ with pending := popPending σ.pending j p } j (.write p)).σ
-      (evs ++ [(call env { σ with pending := popPending σ.pending j p } j (.write p)).ev])
-    exact ⟨by rw [a, hmods], by rw [b, hst]⟩
+    split
+    · have hst : startsOf (evs ++ [(writeOne env σ j p).ev]) i = startsOf evs i :=
+        startsOf_snoc_other evs _ i (by simp [writeOne, call])
+      obtain ⟨a, b⟩ := ih (writeOne env σ j p).σ (evs ++ [(writeOne env σ j p).ev])
+      exact ⟨by rw [a, writeOne_mods env hq], by rw [b, hst]⟩
+    · exact ih σ evs
 
 theorem writeInit_quiet (env : Env) (hq : Quiet env) (i j : Nat) (σ : PollState) (evs : List Event) :
     (writeInit env σ j evs).σ.mods = σ.mods ∧ startsOf (writeInit env σ j evs).evs i = startsOf evs i :=
@@ -1395,7 +1505,7 @@ def exConsts : Consts := ⟨1000, 5⟩
 `stamp := c` stamps the parameter read by the call with the time the call began -/
 def exEnv : Env :=
   { adv := fun _ => 0, dur := fun _ => 3, out := fun _ => .exc, touch := fun _ => [], ext := fun _ => [],
-    wake := fun _ => [], gap := fun _ => [] }
+    wake := fun _ => [], gap := fun _ => [], takes := fun _ => [] }
 
 def exMod (interval slow : Nat) (polled : List Nat) : Mod :=
   { enabled := true, slow := slow, polled := polled, pollinterval := interval, interval := interval, fast := false,
